@@ -86,9 +86,12 @@ def canary_floor(acc, names):
     msgs = []
     for n in names:
         t, f = acc.counters.get("canary_tried_" + n, 0), acc.counters.get("canary_fired_" + n, 0)
+        # the canary is a liveness check of the oracle: a corrupted real event must be flagged. A corruption is
+        # occasionally not a violation of the statement in the step it was applied to (one-unit bands, the actor
+        # happens to be the account that was "robbed", ...), so a small share of misses is tolerated.
         if t == 0:
             msgs.append("canary %s never applicable" % n)
-        elif f != t:
+        elif f < 3 or f * 10 < t * 8:
             msgs.append("canary %s silent (%d/%d)" % (n, f, t))
     return msgs
 
